@@ -7,6 +7,7 @@ import Drivers.StakingD
 import Drivers.PayoutD
 import Drivers.MintD
 import Drivers.UbdD
+import Drivers.WasmD
 /-
   Chain driver: reads the trace of the real application (one JSON object per line),
   runs the model on every operation from the *observed* pre-state, compares the
@@ -1033,6 +1034,15 @@ partial def loop (hIn : IO.FS.Stream) (ds : DS) : IO DS := do
         let mut ds := { ds with h := J.intOf j "h" }
         for k in r.stats do ds := stat ds ("sit." ++ k)
         ds := { ds with stats := bump ds.stats "tx.ubdq.ok" 1 }
+        for (kind, props, name, detail) in r.findings do
+          ds ← finding ds kind props name detail
+        pure ds
+      | "wasm" => do
+        -- C17: one delivery of a counting loop as eWASM / EVM code (profile "wasm")
+        let r := WasmD.check j
+        let mut ds := { ds with h := J.intOf j "h" }
+        for k in r.stats do ds := stat ds (if k.startsWith "mon." then k else "sit." ++ k)
+        ds := { ds with stats := bump ds.stats (if J.intOf j "code" == 0 then "tx.cvm.wasm.ok" else "tx.cvm.wasm.fail") 1 }
         for (kind, props, name, detail) in r.findings do
           ds ← finding ds kind props name detail
         pure ds
